@@ -129,6 +129,12 @@ CouponHashSet<A>* CouponHashSet<A>::newSet(const void* bytes, size_t len, const 
     std::memcpy(sketch->coupons_.data(),
                 data + hll_constants::HASH_SET_INT_ARR_START,
                 couponsInArray * sizeof(uint32_t));
+    uint32_t numCoupons = 0;
+    for (auto it = sketch->begin(false); it != sketch->end(); ++it) ++numCoupons;
+    if (numCoupons != couponCount) {
+      sketch->get_deleter()(sketch);
+      throw std::invalid_argument("Coupon count does not match the coupon array");
+    }
   }
 
   return sketch;
@@ -195,6 +201,14 @@ CouponHashSet<A>* CouponHashSet<A>::newSet(std::istream& is, const A& allocator)
 
   if (!is.good())
     throw std::runtime_error("error reading from std::istream"); 
+
+  if (!compactFlag) { // the whole array was read: the count must agree with it
+    uint32_t numCoupons = 0;
+    for (auto it = sketch->begin(false); it != sketch->end(); ++it) ++numCoupons;
+    if (numCoupons != couponCount) {
+      throw std::invalid_argument("Coupon count does not match the coupon array");
+    }
+  }
 
   return ptr.release();
 }
